@@ -52,11 +52,12 @@ Print Assumptions C13_append_option_exact.
 
 (* an append at any address inside a declaration - following inline types (through array and
    map items) and nested declarations to any depth; the action is a field at the end of the
-   message reached, an option at the end of the enum reached (J5sEdit.enum_snoc: not an option
-   ending in UNSPECIFIED at the end of an enum without options), or a nested
-   declaration at the end of the message reached - extends the message in the sense of
-   J5sEdit.props_ext / nesteds_ext *)
-Theorem C13_append_anywhere_extends : forall a path ps subs,
+   message reached, an option at the end of the enum reached, or a nested declaration at the end
+   of the message reached - extends the message in the sense of J5sEdit.props_ext / nesteds_ext,
+   unless it is the one excluded edit (J5sEdit.at_ok: not an option ending in UNSPECIFIED at the
+   end of an enum without options, wherever the enum sits).  apply_at applies every edit
+   faithfully, the excluded one included. *)
+Theorem C13_append_anywhere_extends : forall a path ps subs, at_ok path a ps subs ->
   props_ext ps (fst (apply_at path a ps subs)) /\ nesteds_ext subs (snd (apply_at path a ps subs)).
 Proof. exact apply_at_ext. Qed.
 Print Assumptions C13_append_anywhere_extends.
@@ -191,6 +192,21 @@ Theorem C13_append_to_empty_enum_refuted :
                files_ext_b D D' = false.
 Proof. exact append_to_empty_enum_renames_zero. Qed.
 Print Assumptions C13_append_to_empty_enum_refuted.
+
+(* the same finding at depth (an enum without options nested in an object, the option appended
+   through an address: EAppendIn): the edit is applied as it is, both versions are valid and
+   compile, STATUS_UNSPECIFIED = 0 becomes STATUS_OLD_UNSPECIFIED = 0, the old descriptors do not
+   embed - and the edit is excluded from C13_full (edit_ok fails), wherever the enum sits *)
+Theorem C13_append_to_empty_nested_enum_refuted :
+  valid w_empty_nested_enum = true /\ valid (apply_edits w_empty_nested_enum [w_empty_nested_enum_edit]) = true /\
+  (exists D D', compile w_empty_nested_enum (b "foo.v1") = Ok D /\
+                compile (apply_edits w_empty_nested_enum [w_empty_nested_enum_edit]) (b "foo.v1") = Ok D' /\
+                nested_enum_vals D = [[(b "STATUS_UNSPECIFIED", 0)]] /\
+                nested_enum_vals D' = [[(b "STATUS_OLD_UNSPECIFIED", 0)]] /\
+                files_ext_b D D' = false) /\
+  (forall j, nth_error w_empty_nested_enum 0 = Some (BJ j) -> ~ edit_ok w_empty_nested_enum_edit j).
+Proof. exact append_to_empty_nested_enum_renames_zero. Qed.
+Print Assumptions C13_append_to_empty_nested_enum_refuted.
 
 (* regression example (defect repaired by 2ef7c92): `object Foo { field x object {} }` and the same
    with `field foo object {}` appended both compile, and the existing field x keeps its type *)
